@@ -44,6 +44,78 @@ def impl_eval(gu, g, s, ds):
     return r
 
 
+class V:
+    """A vertex object that is equal to every other V of the same number but is a distinct object each time it is made
+    (the code may only use == and hashing on vertices: the callers pass equal-but-not-identical nodes)."""
+    __slots__ = ("n",)
+
+    def __init__(self, n):
+        self.n = n
+
+    def __eq__(self, o):
+        return isinstance(o, V) and o.n == self.n
+
+    def __hash__(self):
+        return hash(("v", self.n))
+
+    def __repr__(self):
+        return "V%d" % self.n
+
+
+def _snap(G):
+    return [(k.n, type(adj).__name__, sorted(t.n for t in adj) if isinstance(adj, (set, frozenset)) else [t.n for t in adj])
+            for k, adj in G.items()]
+
+
+def impl_eval_hist(gu, g0, g, s, ds, use_sets, problems):
+    """The same queries, but on ONE long-lived graph object: built as g0, queried once, re-wired in place into g (same dict,
+    same key objects, same adjacency containers), and queried again with freshly made (equal, not identical) vertex
+    objects; after every call the graph must be what it was before the call.  Returns (graph as the queries saw it, record)."""
+    mk = (lambda ts: set(V(t) for t in ts)) if use_sets else (lambda ts: [V(t) for t in ts])
+    G = {V(k): mk(ts) for k, ts in g0}
+    GE = {V(k): [Edge(V(t)) for t in ts] for k, ts in g0}
+
+    def q(fn, *a):
+        before, before_e = _snap(G), [(k.n, [e.target.n for e in es]) for k, es in GE.items()]
+        r = fn(*a)
+        if _snap(G) != before or [(k.n, [e.target.n for e in es]) for k, es in GE.items()] != before_e:
+            problems.append("%s modified the graph it was asked about: %s -> %s" % (fn.__name__, before, _snap(G)))
+        return r
+
+    def everything():
+        r = {}
+        r["reach"] = [bool(q(gu.reachable, G, V(s), V(d))) for d in ds]
+        r["bi"] = [bool(q(gu.bi_reachable, G, V(s), V(d))) for d in ds]
+        r["conn"] = [bool(q(gu.connected, G, V(s), V(d))) for d in ds]
+        r["nreach"] = [bool(q(gu.none_reachable, G, V(s), V(d))) for d in ds]
+        r["nconn"] = [bool(q(gu.none_connected, G, V(s), V(d))) for d in ds]
+        r["paths"] = [[v.n for v in p] for p in q(gu.find_all_paths, G, V(s))]
+        r["longest"] = [[v.n for v in p] for p in q(gu.find_longest_paths, G, V(s))]
+        r["allreach"] = sorted(v.n for v in q(gu.find_all_reachable, G, V(s)))
+        r["allbi"] = sorted(v.n for v in q(gu.find_all_bi_reachable, G, V(s)))
+        r["allconn"] = sorted(v.n for v in q(gu.find_all_connected, G, V(s)))
+        try:
+            r["sources"] = [v.n for v in q(gu.find_sources, G, V(s))]
+        except KeyError:
+            r["sources"] = None
+        r["dfs"] = sorted(v.n for v in q(gu.dfs, GE, V(s)))
+        return r
+    everything()
+    # in-place re-wiring: same dict object, same key objects, same containers
+    new = dict(g)
+    for k in list(G):
+        adj = G[k]
+        if use_sets:
+            adj.clear()
+            adj.update(V(t) for t in new[k.n])
+        else:
+            adj[:] = [V(t) for t in new[k.n]]
+        GE[k][:] = [Edge(V(t)) for t in new[k.n]]
+    r = everything()
+    seen = [(k.n, [t.n for t in adj]) for k, adj in G.items()]      # iteration order of the containers = the model's edge order
+    return seen, r
+
+
 # ------------------------------------------------------------------ executable specification
 
 def spec_closure(g, s, keyed):
@@ -269,6 +341,32 @@ def run(tier, seed, replay=None):
         e = impl_eval(gu, g, s, ds)
         full.append((g, s, ds, e))
         sizes[len(g)] = sizes.get(len(g), 0) + 1
+    # history stream: one long-lived graph object per case, queried, re-wired in place (same numbers of vertices and edges
+    # where possible) and queried again through equal-but-not-identical vertex objects; list and set adjacencies
+    problems = []
+    nhist = 0
+    hrng = random.Random(C.sub_seed(seed, "c19hist"))
+    for idx, (g, s, ds) in enumerate(list(cases)):
+        if replay or len(g) < 2 or (idx % 3 and len(g) <= 3):
+            continue
+        if any(len(set(t)) != len(t) for _, t in g):
+            continue                                    # multigraphs cannot be given as sets
+        ks = [k for k, _ in g]
+        g0 = [(k, list(t)) for k, t in g]
+        edges = [(i, j) for i, (_, t) in enumerate(g0) for j in range(len(t))]
+        if edges:
+            i, j = hrng.choice(edges)                   # the graph BEFORE: one edge pointed somewhere else
+            cand = [v for v in ks if v not in g0[i][1]]
+            if cand:
+                g0[i][1][j] = hrng.choice(cand)
+        use_sets = bool(hrng.getrandbits(1))
+        before = len(problems)
+        gseen, e = impl_eval_hist(gu, g0, g, s, ds, use_sets, problems)
+        for msg in problems[before:before + 1]:
+            rep.violation("purity", "graph %s (as %s), start %d: %s" % (g, "sets" if use_sets else "lists", s, msg),
+                          dict(graph=[[k, t] for k, t in g], s=s, ds=ds, before=[[k, t] for k, t in g0], sets=use_sets, what=msg))
+        full.append((gseen, s, ds, e))
+        nhist += 1
     # model, in the kernel
     chunk = 400
     files = []
@@ -331,7 +429,11 @@ def run(tier, seed, replay=None):
             exhaustive=(not replay),
             exhaustive_scope="all digraphs (self-loops included) on <= %d vertices, every start vertex "
                              "incl. one non-key, every destination" % (4 if tier == "thorough" else 3),
-            input_histogram=hist, graph_size_histogram=sizes,
+            input_histogram=hist, graph_size_histogram=sizes, history_cases=nhist, purity_violations=len(problems),
+            history_rule="history case = a long-lived graph object built as a neighbour graph (one edge re-targeted), all 12 queries "
+                         "evaluated, re-wired IN PLACE into the case's graph, all 12 queries evaluated again with freshly made equal-but-"
+                         "not-identical vertex objects (list or set adjacencies); the second answers go through the same model/spec "
+                         "comparison; after every call the graph object must be unchanged",
             samples=[dict(graph=full[i][0], s=full[i][1], ds=full[i][2], impl=full[i][3])
                      for i in (0, len(full) // 2, len(full) - 1)],
             trusted_base=C.TRUSTED_BASE_COMMON + [
